@@ -54,7 +54,8 @@ def main() -> None:
     def scan(thread, inst, x, k):
         emit({"ev": "Begin", "thread": thread, "inst": inst, "input": x, "k": k, "view": "tree"})
         try:
-            dg = digest(scanners[inst].scan(bytes.fromhex(x), k))
+            # the default depth limit is asked for the way callers do: by not passing one
+            dg = digest(scanners[inst].scan(bytes.fromhex(x)) if k == 10 else scanners[inst].scan(bytes.fromhex(x), k))
         except Exception:  # noqa: BLE001
             dg = "EXC"
         emit({"ev": "End", "thread": thread, "digest": dg})
